@@ -148,7 +148,7 @@ func oracleC13(s *Sim) {
 			}
 			// credentials accepted: their metadata reaches the handler, merged with the caller's
 			if v.hStart != nil {
-				if ok, why := mdContains(v.hStart.MD, v.expectedIncoming()); !ok {
+				if ok, why := v.incomingOK(v.hStart.MD); !ok {
 					v.fail("C13", "credential-metadata|"+shape, "handler's incoming metadata: %s", why)
 				}
 			} else if first.Err.IsNil() && v.terminal != nil && v.terminal != first {
